@@ -2,8 +2,10 @@
    pattern matches a record only if it contains every UUID; AVDTP stream states agree on both
    ends.  This file contains only statements, each closed by [exact]. *)
 From Coq Require Import ZArith List Bool Sorted.
-From BV Require Import Model.C19Chunks Model.Sdp Model.AvdtpAsm Model.AvctpAsm Model.AvdtpStream.
-From BV Require Import Proofs.C19Chunks Proofs.Sdp Proofs.AvdtpAsm Proofs.AvctpAsm Proofs.AvdtpStream.
+From BV Require Import Model.C19Chunks Model.Sdp Model.AvdtpAsm Model.AvctpAsm Model.AvdtpStream Model.C19Shape.
+From BV Require Import Model.CodecsSdp Model.SdpE2E Proofs.SdpE2E.
+From BV Require Import Gen.C19Shape.
+From BV Require Import Proofs.C19Chunks Proofs.Sdp Proofs.AvdtpAsm Proofs.AvctpAsm Proofs.AvdtpStream Proofs.C19Shape.
 Import ListNotations.
 Open Scope Z_scope.
 
@@ -102,6 +104,37 @@ Theorem C19_sdp_response_to_requester : forall recs s c mtu q,
 Proof. exact response_to_requester. Qed.
 Print Assumptions C19_sdp_response_to_requester.
 
+(* Every response of every handler fits the MTU of the channel it is sent on. *)
+Theorem C19_sdp_response_fits_mtu : forall recs mtu cur q,
+  11 <= mtu -> rsp_size (snd (handle recs mtu cur q)) <= mtu.
+Proof. exact response_fits_mtu. Qed.
+Print Assumptions C19_sdp_response_fits_mtu.
+
+(* END TO END (chunking composed with the DataElement round trip of property C18): for any record table
+   whose attribute values are well-formed data elements ([tv a] is the element serialised in [at_bytes a]),
+   any MTU >= 10, any id list, a response of at most 64 pieces, whatever the server held before:
+   Client.get_attributes hands the caller exactly (id, value) of every selected attribute, in id order ... *)
+Theorem C19_sdp_get_attributes_end_to_end : forall max_depth tv recs mtu cur h ids svc,
+  lookup_record h recs = Some svc -> 10 <= mtu -> (1 <= max_depth)%nat ->
+  (forall a, In a svc -> attr_typed max_depth tv a) ->
+  zlen (attr_list_bytes (get_service_attributes svc ids)) <= 64 * capacity mtu ->
+  exists acc,
+    client_get_attributes recs mtu cur h ids = (RNone, CDoneBytes acc) /\
+    client_parse_attributes max_depth acc = PValue (typed tv (get_service_attributes svc ids)).
+Proof. exact get_attributes_end_to_end. Qed.
+Print Assumptions C19_sdp_get_attributes_end_to_end.
+
+(* ... and Client.search_attributes one such list per matching record that has a requested attribute. *)
+Theorem C19_sdp_search_attributes_end_to_end : forall max_depth tv recs mtu cur pat ids,
+  10 <= mtu -> (1 <= max_depth)%nat ->
+  (forall h svc a, In (h, svc) recs -> In a svc -> attr_typed max_depth tv a) ->
+  zlen (search_attr_bytes recs pat ids) <= 64 * capacity mtu ->
+  exists acc,
+    client_search_attributes recs mtu cur pat ids = (RNone, CDoneBytes acc) /\
+    client_parse_attribute_lists max_depth acc = PValue (map (typed tv) (search_attr_lists recs pat ids)).
+Proof. exact search_attributes_end_to_end. Qed.
+Print Assumptions C19_sdp_search_attributes_end_to_end.
+
 (* ============================================================ AVDTP signalling messages *)
 
 (* For every MTU >= 4, every header, every payload within the packet-count guard, and from
@@ -185,7 +218,7 @@ Print Assumptions C19_stream_states_follow_spec.
    end; a legal one is accepted. *)
 Theorem C19_stream_illegal_refused_unchanged : forall ops o,
   let p := fst (run p_init ops) in
-  legal o (src_st p) = false -> step p o = (p, Refused).
+  legal o (src_st p) = false -> step p o = (p, refusal o).
 Proof. exact illegal_refused_unchanged. Qed.
 Print Assumptions C19_stream_illegal_refused_unchanged.
 
@@ -199,6 +232,161 @@ Print Assumptions C19_stream_legal_accepted.
 Theorem C19_stream_enumeration_complete : forall p, In p all_pairs.
 Proof. exact all_pairs_complete. Qed.
 Print Assumptions C19_stream_enumeration_complete.
+
+(* ============================================================ the models against the CURRENT source
+   Gen/C19Shape.v is regenerated from bumble/sdp.py, avdtp.py, avctp.py on every run (tools/translate/
+   c19_shape.py, fail-closed).  An edit to a constant, a comparison, a bound, a slice, a guard, the order or
+   presence of a statement in an anchored function changes a g_ definition and breaks one of these. *)
+
+(* the service-search handler cuts the handle list at the source's (peer_mtu - 11) // 4 *)
+Theorem C19_sdp_search_handler_matches_source : forall recs mtu pat mc total hs,
+  handle recs mtu (RHandles total hs) (QSearch pat mc CValid) =
+  (RHandles total (skipn (Z.to_nat (g_sdp_search_per mtu)) hs),
+   ESearch total (firstn (Z.to_nat (g_sdp_search_per mtu)) hs)
+           (negb (is_nil (skipn (Z.to_nat (g_sdp_search_per mtu)) hs)))).
+Proof. exact sdp_search_handler_src. Qed.
+Print Assumptions C19_sdp_search_handler_matches_source.
+
+(* get_next_response_payload: the source's comparison and the source's two slice bounds *)
+Theorem C19_sdp_next_payload_matches_source : forall mx b,
+  next_payload mx b =
+  if g_sdp_more (zlen b) mx
+  then (firstn (Z.to_nat (g_sdp_payload_end mx)) b, true, RBytes (skipn (Z.to_nat (g_sdp_rest_start mx)) b))
+  else (b, false, RNone).
+Proof. exact sdp_next_payload_src. Qed.
+Print Assumptions C19_sdp_next_payload_matches_source.
+
+(* the byte budget of both bytes-kind handlers is the source's min(maximum_attribute_byte_count, peer_mtu - 9) *)
+Theorem C19_sdp_budget_matches_source : forall recs mtu b h pat mb ids,
+  handle recs mtu (RBytes b) (QAttr h mb ids CValid) = respond_bytes EAttr (g_sdp_attr_budget mb mtu) (RBytes b) /\
+  handle recs mtu (RBytes b) (QSearchAttr pat mb ids CValid) =
+  respond_bytes ESearchAttr (g_sdp_sattr_budget mb mtu) (RBytes b).
+Proof. exact sdp_budget_src. Qed.
+Print Assumptions C19_sdp_budget_matches_source.
+
+Theorem C19_sdp_continuation_matches_source :
+  g_sdp_continuation_state = e_sdp_continuation_state /\
+  g_sdp_is_continuation 1 = false /\ g_sdp_is_continuation (zlen g_sdp_continuation_state) = true /\
+  g_sdp_client_done 1 0 = true /\ g_sdp_client_done (zlen g_sdp_continuation_state) 1 = false.
+Proof. exact sdp_continuation_src. Qed.
+Print Assumptions C19_sdp_continuation_matches_source.
+
+(* attribute id ranges: value_size 4 means hi16..lo16, the comparison is inclusive on both ends *)
+Theorem C19_sdp_id_ranges_match_source : forall v,
+  g_sdp_is_range 4 = true /\ g_sdp_is_range 2 = false /\
+  id_lo (true, v) = g_sdp_id_lo v /\ id_hi (true, v) = g_sdp_id_hi v /\
+  id_lo (false, v) = v /\ id_hi (false, v) = v.
+Proof. exact sdp_ids_src. Qed.
+Print Assumptions C19_sdp_id_ranges_match_source.
+
+Theorem C19_sdp_in_range_matches_source : forall i a,
+  in_range i a = g_sdp_in_range (at_id a) (id_lo i) (id_hi i).
+Proof. exact sdp_in_range_src. Qed.
+Print Assumptions C19_sdp_in_range_matches_source.
+
+(* the client loops: watchdog and request constants of the source *)
+Theorem C19_sdp_client_matches_source : forall recs mtu cur h pat ids,
+  client_get_attributes recs mtu cur h ids =
+    client_bytes (Z.to_nat g_sdp_watchdog) recs mtu (QAttr h g_sdp_client_get_attributes_max ids CFresh) cur CFresh [] /\
+  client_search_attributes recs mtu cur pat ids =
+    client_bytes (Z.to_nat g_sdp_watchdog) recs mtu (QSearchAttr pat g_sdp_client_search_attributes_max ids CFresh) cur CFresh [] /\
+  client_search_services recs mtu cur pat =
+    client_handles (Z.to_nat g_sdp_watchdog) recs mtu (QSearch pat g_sdp_client_search_services_max CFresh) cur CFresh [].
+Proof. exact sdp_client_src. Qed.
+Print Assumptions C19_sdp_client_matches_source.
+
+Theorem C19_sdp_error_codes_match_source :
+  g_sdp_errors_check_continuation = [ERR_INVALID_CONTINUATION] /\
+  g_sdp_errors_on_sdp_service_search_request = [] /\
+  g_sdp_errors_on_sdp_service_attribute_request = [ERR_INVALID_HANDLE] /\
+  g_sdp_errors_on_sdp_service_search_attribute_request = [] /\
+  g_sdp_errors_on_pdu = [3; ERR_INSUFFICIENT_RESOURCES; 3] /\
+  g_sdp_pdu_ids = e_sdp_pdu_ids.
+Proof. exact sdp_errors_src. Qed.
+Print Assumptions C19_sdp_error_codes_match_source.
+
+(* send_message: the model's fragmenter IS the source's arithmetic (fragment size, single-packet test,
+   packet count) *)
+Theorem C19_avdtp_frag_matches_source : forall mtu label sig mt payload,
+  a_frag mtu label sig mt payload = a_frag_src mtu label sig mt payload.
+Proof. exact avdtp_frag_src. Qed.
+Print Assumptions C19_avdtp_frag_matches_source.
+
+Theorem C19_avdtp_header_matches_source : forall label pt mt,
+  0 <= label < 16 -> 0 <= pt < 4 -> 0 <= mt < 4 -> g_avdtp_header label pt mt = a_hdr label pt mt.
+Proof. exact avdtp_header_src. Qed.
+Print Assumptions C19_avdtp_header_matches_source.
+
+Theorem C19_avdtp_decode_matches_source : forall b, 0 <= b < 256 ->
+  g_avdtp_label b = b / 16 /\ g_avdtp_packet_type b = (b / 4) mod 4 /\
+  g_avdtp_message_type b = b mod 4 /\ g_avdtp_signal b = b mod 64.
+Proof. exact avdtp_decode_src. Qed.
+Print Assumptions C19_avdtp_decode_matches_source.
+
+Theorem C19_avdtp_guards_match_source : forall len cnt nsp F,
+  g_avdtp_too_short len = (len <? 2) /\ g_avdtp_start_too_short len = (len <? 3) /\
+  g_avdtp_end_bad cnt nsp = negb (cnt =? nsp) /\ g_avdtp_continue_bad cnt nsp = (nsp <? cnt) /\
+  g_avdtp_continue len F = (F <? len) /\
+  g_avdtp_body_offsets = e_avdtp_body_offsets /\ g_avdtp_packet_types = e_packet_types /\
+  e_packet_types = [PT_SINGLE; PT_START; PT_CONTINUE; PT_END].
+Proof. exact avdtp_guards_src. Qed.
+Print Assumptions C19_avdtp_guards_match_source.
+
+Theorem C19_avdtp_count_tests_match_source : forall label acc mt sg n k c,
+  (k =? 0) = false ->
+  a_on_frame (mkA label (Some acc) mt sg n k) label PT_END mt c =
+    (if g_avdtp_end_bad k n then (a_reset, []) else (a_reset, [AMsg label sg mt (acc ++ c)])) /\
+  a_on_frame (mkA label (Some acc) mt sg n k) label PT_CONTINUE mt c =
+    (if g_avdtp_continue_bad k n then (a_reset, []) else (mkA label (Some (acc ++ c)) mt sg n k, [])).
+Proof. exact avdtp_count_tests_src. Qed.
+Print Assumptions C19_avdtp_count_tests_match_source.
+
+Theorem C19_avctp_decode_matches_source : forall b, 0 <= b < 256 ->
+  g_avctp_label b = b / 16 /\ g_avctp_packet_type b = (b / 4) mod 4 /\
+  g_avctp_cr b = (b / 2) mod 2 /\ g_avctp_ipid b = b mod 2.
+Proof. exact avctp_decode_src. Qed.
+Print Assumptions C19_avctp_decode_matches_source.
+
+Theorem C19_avctp_guards_match_source : forall cr ipid rcv nop,
+  g_avctp_invalid_ipid cr ipid = ((cr =? 0) && negb (ipid =? 0)) /\
+  g_avctp_too_many rcv nop = (nop <? rcv) /\ g_avctp_premature_end rcv nop = negb (rcv =? nop) /\
+  g_avctp_pid_offsets = e_avctp_pid_offsets /\
+  map g_avctp_body_start g_avctp_pid_offsets = [3; 4] /\
+  g_avctp_packet_types = e_packet_types /\ e_packet_types = [CT_SINGLE; CT_START; CT_CONTINUE; CT_END].
+Proof. exact avctp_guards_src. Qed.
+Print Assumptions C19_avctp_guards_match_source.
+
+Theorem C19_avctp_count_tests_match_source : forall label pid cr ipid ipid' acc n k ph pl body,
+  g_avctp_invalid_ipid cr ipid' = false -> ph * 256 + pl = pid ->
+  c_on_frame (mkC k label pid cr ipid acc n) label CT_END cr ipid' (ph :: pl :: body) =
+    (if g_avctp_too_many k n || g_avctp_premature_end k n then (c_reset, [])
+     else (c_reset, [c_deliver label cr ipid pid (acc ++ body)])) /\
+  c_on_frame (mkC k label pid cr ipid acc n) label CT_CONTINUE cr ipid' (ph :: pl :: body) =
+    (if g_avctp_too_many k n then (c_reset, []) else (mkC k label pid cr ipid (acc ++ body) n, [])).
+Proof. exact avctp_count_tests_src. Qed.
+Print Assumptions C19_avctp_count_tests_match_source.
+
+(* stream procedures: the guards and change_state targets read from the source are the table the model was
+   written from, and the model's transition function agrees with that table in every state of the pair *)
+Theorem C19_stream_tables_match_source :
+  g_stream_initiator = e_stream_initiator /\ g_stream_acceptor = e_stream_acceptor /\
+  g_avdtp_state_codes = [0; 1; 2; 3; 4; 5].
+Proof. exact stream_tables_src. Qed.
+Print Assumptions C19_stream_tables_match_source.
+
+Theorem C19_stream_initiator_matches_table :
+  forallb (fun p => forallb (initiator_check p) all_ops) all_pairs = true.
+Proof. exact stream_initiator_check_all. Qed.
+Print Assumptions C19_stream_initiator_matches_table.
+
+Theorem C19_stream_acceptor_matches_table : forallb acceptor_check all_pairs = true.
+Proof. exact stream_acceptor_check_all. Qed.
+Print Assumptions C19_stream_acceptor_matches_table.
+
+(* the statement skeleton of each of the 50 anchored functions is the one the models were read from *)
+Theorem C19_skeletons_match_source : g_skeletons = e_skeletons.
+Proof. exact skeletons_src. Qed.
+Print Assumptions C19_skeletons_match_source.
 
 (* ============================================================ non-vacuity *)
 Example C19_hypotheses_satisfiable :
@@ -237,6 +425,16 @@ Example C19_sdp_two_clients :
   [(1, EAttr [53; 9; 9; 0; 1; 1] true); (2, EAttr [53; 9; 9; 0; 1; 9] true);
    (1, EAttr [2; 3; 4; 5; 6] false); (2, EAttr [8; 7; 6; 5; 4] false)].
 Proof. vm_compute. reflexivity. Qed.
+
+(* the hypothesis of the end-to-end theorems is satisfiable, and the result is what it says *)
+Example C19_sdp_end_to_end_example :
+  let tv := fun a : attr => if at_id a =? 0 then EUInt 4 65537 else ESeq [EUuid [1; 17]] in
+  let svc := [mkAttr 1 [53; 3; 25; 17; 1] (DSeq [DUuid 1]); mkAttr 0 [10; 0; 1; 0; 1] DOther] in
+  encode (tv (mkAttr 1 [] DOther)) = Some [53; 3; 25; 17; 1] /\ encode (tv (mkAttr 0 [] DOther)) = Some [10; 0; 1; 0; 1] /\
+  client_parse_attributes 32 (match snd (client_get_attributes [(7, svc)] 48 RNone 7 [(true, 65535)]) with
+                              | CDoneBytes acc => acc | _ => [] end)
+  = PValue [(0, EUInt 4 65537); (1, ESeq [EUuid [1; 17]])].
+Proof. vm_compute. repeat split. Qed.
 
 (* D19f: configure, open, abort leaves both ends IDLE *)
 Example C19_stream_abort :
